@@ -1212,7 +1212,10 @@ class BaseOutlineCompiler:
         # convert the UFO data to the expected format and measure the advances.
         h_assemblies = {}
         v_assemblies = {}
-        for name, glyph in self.allGlyphs.items():
+        # (in glyph order: a part's italic correction goes to the first assembly that
+        # ends with it, which must not depend on the glyph set's iteration order)
+        for name in self.glyphOrder:
+            glyph = self.allGlyphs[name]
             if GLYPHS_MATH_VARIANTS_KEY in glyph.lib:
                 variants = glyph.lib[GLYPHS_MATH_VARIANTS_KEY]
                 if names := variants.get("hVariants"):
